@@ -5,7 +5,7 @@ import os
 import common
 import vhdl_reader as R
 
-CASE_TMPL = """{header}From Cohdl Require Import Equiv.VhdlTS Equiv.RefTS Vhdl.DeadVars Equiv.NormTS.
+CASE_TMPL = """{header}From Cohdl Require Import Equiv.VhdlTS Equiv.RefTS Vhdl.DeadVars Equiv.StoreTS.
 {imports}
 Definition d : design := {design}.
 {defs}
@@ -14,14 +14,14 @@ Definition initB : list Z := {init}.
 Definition alphabet : list (list value) := {alphabet}.
 Definition assume : list Z -> list value -> bool := {assume}.
 {count}Theorem case_ok : forall ins, admissible stepB alphabet assume initB ins ->
-  traceA (vstep d {mid}) (power_up d) ins = traceB stepB initB ins.
+  traceA (sstep d {mid}) (power_up_s d) ins = traceB stepB initB ins.
 Proof.
-  apply (rcheck_n_sound d {mid} stepB alphabet assume {fuel} initB); vm_cast_no_check (eq_refl true).
+  apply (rcheck_s_sound d {mid} stepB alphabet assume {fuel} initB); vm_cast_no_check (eq_refl true).
 Qed.
 """
 
 
-MON_TMPL = """{header}From Cohdl Require Import Equiv.VhdlTS Equiv.RefTS Equiv.Monitor Vhdl.DeadVars Equiv.NormTS.
+MON_TMPL = """{header}From Cohdl Require Import Equiv.VhdlTS Equiv.RefTS Equiv.Monitor Vhdl.DeadVars Equiv.StoreTS.
 {imports}
 Definition d : design := {design}.
 {defs}
@@ -29,16 +29,16 @@ Definition mon : monitor := {step}.
 Definition m0 : list Z := {init}.
 Definition alphabet : list (list value) := {alphabet}.
 {count}Theorem case_ok : forall ins, Forall (fun i => In i alphabet) ins ->
-  Forall (fun o => o = okout) (traceA (mstep d {mid} mon) (power_up d, m0) ins).
+  Forall (fun o => o = okout) (traceA (mstep_s d {mid} mon) (power_up_s d, m0) ins).
 Proof.
-  apply (mcheck_n_sound d {mid} mon alphabet {fuel} m0); vm_cast_no_check (eq_refl true).
+  apply (mcheck_s_sound d {mid} mon alphabet {fuel} m0); vm_cast_no_check (eq_refl true).
 Qed.
 """
 
-MON_DIAG_TMPL = """Definition verdict := Eval vm_compute in (mcheck_bfs d {mid} mon alphabet {fuel} m0).
+MON_DIAG_TMPL = """Definition verdict := Eval vm_compute in (mcheck_s_bfs d {mid} mon alphabet {fuel} m0).
 Eval vm_compute in verdict.
 Eval vm_compute in (match verdict with
-  | VCex path => Some (traceA (vstep d {mid}) (power_up d) path, traceA (mstep d {mid} mon) (power_up d, m0) path)
+  | VCex path => Some (traceA (sstep d {mid}) (power_up_s d) path, traceA (mstep_s d {mid} mon) (power_up_s d, m0) path)
   | _ => None end).
 """
 
@@ -94,9 +94,9 @@ def write_case(ck, c: Case):
     cnt = ""
     if c.count:
         if c.monitor:
-            cnt = "Eval vm_compute in (mcheck_n d %s mon alphabet %d m0).\n" % ("true" if c.mid else "false", c.fuel)
+            cnt = "Eval vm_compute in (mcheck_s d %s mon alphabet %d m0).\n" % ("true" if c.mid else "false", c.fuel)
         else:
-            cnt = "Eval vm_compute in (rcheck_n d %s stepB alphabet assume %d initB).\n" % ("true" if c.mid else "false", c.fuel)
+            cnt = "Eval vm_compute in (rcheck_s d %s stepB alphabet assume %d initB).\n" % ("true" if c.mid else "false", c.fuel)
     with open(c.path, "w") as f:
         f.write(tmpl.format(header=common.COQ_HEADER, imports=c.imports, design=term, defs=c.defs, step=c.step,
                                  init=c.init, alphabet=alpha, assume=c.assume, mid="true" if c.mid else "false",
@@ -105,11 +105,11 @@ def write_case(ck, c: Case):
     return c.path
 
 
-DIAG_TMPL = """Eval vm_compute in (dead_ok (auto_T d) d).
-Definition verdict := Eval vm_compute in (rcheck_bfs d {mid} stepB alphabet assume {fuel} initB).
+DIAG_TMPL = """Eval vm_compute in (conc_all_ok (auto_Ts d) d).
+Definition verdict := Eval vm_compute in (rcheck_s_bfs d {mid} stepB alphabet assume {fuel} initB).
 Eval vm_compute in verdict.
 Eval vm_compute in (match verdict with
-  | VCex path => Some (traceA (vstep d {mid}) (power_up d) path, traceB stepB initB path)
+  | VCex path => Some (traceA (sstep d {mid}) (power_up_s d) path, traceB stepB initB path)
   | _ => None end).
 """
 
